@@ -210,15 +210,23 @@ def run(ctx):
                 add(f"{name} to depth {d}", defs, body, pos, mode, group="deep-recursion")
     depths = [10, 100, 1000] if ctx.quick else [10, 100, 1000, 10000, 100000]
     ctx.bound("nesting_depths", depths)
+    ctx.bound("nesting_depths_above_1000", "top/playground-run and test/sandboxed-test only; a depth is skipped once the same nester+operation failed at a smaller depth")
+    two = (("top", "playground-run"), ("test", "sandboxed-test"))
+    later = {}      # depth -> [case], run in stages so that a failure at a smaller depth prunes the deeper ones
     for nname, init, step in NESTERS:
         for fname, final in FINALS:
             for d in depths:
                 body = f"let v = {init}\nlet nest_i = 0\nwhile nest_i < {d} {{ v = {step} nest_i += 1 }}\n{final}"
-                for pos, mode in (("top", "playground-run"), ("test", "sandboxed-test")) if ctx.quick else [(p, m) for p in POSITIONS for m in MODES]:
+                for pos, mode in two if (ctx.quick or d > 1000) else [(p, m) for p in POSITIONS for m in MODES]:
+                    before = len(cases)
                     add(f"nesting: {nname} nested {d} deep, then {fname}", "", body, pos, mode, heavy=d >= 1000, group="nesting")
-
+                    if len(cases) > before:
+                        cases[-1]["ladder"] = (nname, fname, pos, mode)
+                        if d > 1000:
+                            later.setdefault(d, []).append(cases.pop())
     if os.environ.get("GV_COUNT_ONLY"):      # development aid: size of the enumeration without running it
-        raise Machinery(f"count only: {len(cases)} processes")
+        raise Machinery(f"count only: {len(cases) + sum(len(v) for v in later.values())} processes")
+
     def execute(i, c, cap, limit_kib):
         d = os.path.join(root, f"p{i}")
         os.makedirs(d, exist_ok=True)
@@ -248,7 +256,6 @@ def run(ctx):
         return execute(i, c, WALL, as_kib)
 
     res = clijobs.pmap(do_case, list(enumerate(cases)))
-
     def verdict(c, r):
         """(failure kind | None, outcome class)"""
         k = clijobs.failure_kind(r)
@@ -279,7 +286,9 @@ def run(ctx):
 
     # re-runs, alone: a timeout gets 3x the cap; an allocation failure of a bounded program under the quick limit gets the 4 GiB limit
     fails = {}
-    for i, (c, r) in enumerate(zip(cases, res)):
+    stop = set()      # ladder keys that failed or ran out of ticks at some depth: deeper values cannot be built
+
+    def judge(i, c, r):
         kind, cls = verdict(c, r)
         if kind == "timeout" or (kind == "oom" and not c["unbounded"] and as_kib < 4 * GIB):
             r2 = execute(i, c, 3 * WALL, 4 * GIB if kind == "oom" else as_kib)
@@ -290,6 +299,20 @@ def run(ctx):
         if kind:
             fails.setdefault((c["mech"], kind), {})[(c["pos"], c["mode"])] = {"program": c["src"], "args": r["args"], "stdout_tail": r["out"][-300:], "stderr_head": r["err"][:400],
                                                                            "wall_s_rounded": round(r["wall"])}
+        if c.get("ladder") and (kind or cls in ("limit", "test-failed")):
+            stop.add(c["ladder"])
+
+    for i, (c, r) in enumerate(zip(cases, res)):
+        judge(i, c, r)
+    for d in sorted(later):
+        stage = [c for c in later[d] if c["ladder"] not in stop]
+        ctx.outcome(f"nesting depth {d}: skipped, a smaller depth already failed or used up the ticks", len(later[d]) - len(stage))
+        base = len(cases)
+        sres = clijobs.pmap(do_case, [(base + j, c) for j, c in enumerate(stage)])
+        for j, (c, r) in enumerate(zip(stage, sres)):
+            judge(base + j, c, r)
+        cases += stage
+        res += sres
     universe = {}
     for c in cases:
         universe.setdefault(c["mech"], set()).add((c["pos"], c["mode"]))
